@@ -9,28 +9,29 @@ local macro "len_omega" : tactic =>
   `(tactic| ((try simp only [List.length_append, List.length_cons, List.length_nil]) <;> (try omega)))
 local macro "lst" : tactic => `(tactic| ((try simp only [List.append_assoc, List.cons_append, List.nil_append]) <;> (try rfl)))
 
-theorem tr_while (fuel : Nat) (env : Src.Env) (he : EnvOK cx env) (neg : Bool) (t : Ev) (B : Src.Stmts) (k : Nat) (b : Src.B) :
-    Src.tr fuel [] env (.while_ neg t B) k b =
-      ((Src.trStmts fuel [] (loopEnv env (tbl b).length k) B (tbl b).length (b.push (.halt (evInvalid "loop head"))).1).1.set (tbl b).length
-        (if neg then .test t k (Src.trStmts fuel [] (loopEnv env (tbl b).length k) B (tbl b).length (b.push (.halt (evInvalid "loop head"))).1).2
-          else .test t (Src.trStmts fuel [] (loopEnv env (tbl b).length k) B (tbl b).length (b.push (.halt (evInvalid "loop head"))).1).2 k),
+theorem tr_while (fuel : Nat) (sm : List Src.Macro) (env : Src.Env) (neg : Bool) (t : Ev) (B : Src.Stmts) (k : Nat) (b : Src.B) :
+    Src.tr fuel sm env (.while_ neg t B) k b =
+      ((Src.trStmts fuel sm (loopEnv env (tbl b).length k) B (tbl b).length (b.push (.halt (evInvalid "loop head"))).1).1.set (tbl b).length
+        (if neg then .test (Src.substEv env.subst t) k
+            (Src.trStmts fuel sm (loopEnv env (tbl b).length k) B (tbl b).length (b.push (.halt (evInvalid "loop head"))).1).2
+          else .test (Src.substEv env.subst t)
+            (Src.trStmts fuel sm (loopEnv env (tbl b).length k) B (tbl b).length (b.push (.halt (evInvalid "loop head"))).1).2 k),
        (tbl b).length) := by
-  have e : Src.substEv env.subst t = t := by rw [he.1, substEv_nil]
-  rw [Src.tr]; simp only [e]; rfl
+  rw [Src.tr]; rfl
 
 /-- `while not (t) { body }` : label, test jumping to the end, block, jump back -/
 theorem whileNeg_core (cx : Cx) (fuel : Nat) (env : Src.Env) (he : EnvOK cx env) (lb : Nat) (hd : Hdr) (body : Stmts)
     (ht : isTest hd.name = true) {s sa sb s' : St} {ops : List LItem} (o1 o2 sL eB : Nat)
-    (hP : ∀ env', EnvOK cx env' → PieceOK cx ops sa sb (fun k b => Src.trStmts fuel [] env' (toSrcStmts body) k b) env')
+    (hP : ∀ env', EnvOK cx env' → PieceOK cx ops sa sb (fun k b => Src.trStmts fuel cx.sm env' (toSrcStmts body) k b) env')
     (hsaL : sa.loops = (lb + 1, lb + 2) :: s.loops) (hsaC : sa.cases = s.cases) (hl : s'.loops = s.loops) (hc : s'.cases = s.cases)
     (hnA : NamedLe s sa) (hnB : NamedLe sb s') :
     PieceOK cx ([LItem.label (lb + 1) false, LItem.ljump ⟨o1, hd.name, hd.params⟩ (some (lb + 2))] ++
         ([LItem.label sL false] ++ ops ++ [LItem.label eB false]) ++
         [LItem.ljump ⟨o2, Gen.op_jump, []⟩ (some (lb + 1)), LItem.label (lb + 2) false]) s s'
-      (fun k b => Src.tr fuel [] env (.while_ true (hdrEv hd) (toSrcStmts body)) k b) env := by
+      (fun k b => Src.tr fuel cx.sm env (.while_ true (hdrEv hd) (toSrcStmts body)) k b) env := by
   have hP0 := hP env he
-  have htr := fun k b => tr_while fuel env he true (hdrEv hd) (toSrcStmts body) k b
-  have hgrow : ∀ k b, Grow cx.Z b (Src.tr fuel [] env (.while_ true (hdrEv hd) (toSrcStmts body)) k b).1 := by
+  have htr := fun k b => tr_while fuel cx.sm env true (hdrEv hd) (toSrcStmts body) k b
+  have hgrow : ∀ k b, Grow cx.Z b (Src.tr fuel cx.sm env (.while_ true (hdrEv hd) (toSrcStmts body)) k b).1 := by
     intro k b
     rw [htr]
     exact ((Grow.push b _).trans ((hP _ (plainEnv_loopEnv he _ _)).grow _ _)).set_ge (Nat.le_refl _) _
@@ -58,20 +59,20 @@ theorem whileNeg_core (cx : Cx) (fuel : Nat) (env : Src.Env) (he : EnvOK cx env)
   have hPe := hP (loopEnv env (tbl b).length k) (plainEnv_loopEnv he _ _)
   obtain ⟨hNh, hagB⟩ := agree_set hag (hPe.grow _ _)
   -- positions
-  have hit0 : itemAt cx.rs ⟨r, i0⟩ = some (.label (lb + 1) false) := hp.here' [] _ _ (by lst) (by len_omega)
-  have htgt1 : target cx.rs (lb + 1) = ⟨r, i0⟩ := hp.lbl' cx.hlab [] _ _ false (by lst) (by len_omega)
-  have hitT : itemAt cx.rs ⟨r, i0 + 1⟩ = some (.ljump ⟨o1, hd.name, hd.params⟩ (some (lb + 2))) :=
+  have hit0 : ItemC cx.cp cx.rs ⟨r, i0⟩ (.label (lb + 1) false) := hp.here' [] _ _ (by lst) (by len_omega)
+  have htgt1 : target cx.rs (cx.cp.σ (lb + 1)) = ⟨r, i0⟩ := hp.lbl' cx.hlab [] _ _ false (by lst) (by len_omega)
+  have hitT : ItemC cx.cp cx.rs ⟨r, i0 + 1⟩ (.ljump ⟨o1, hd.name, hd.params⟩ (some (lb + 2))) :=
     hp.here' [LItem.label (lb + 1) false] _ _ (by lst) (by len_omega)
-  have hpBlk : Placed cx.rs r (i0 + 2) ([LItem.label sL false] ++ ops ++ [LItem.label eB false] ++
+  have hpBlk : Placed cx.cp cx.rs r (i0 + 2) ([LItem.label sL false] ++ ops ++ [LItem.label eB false] ++
       [LItem.ljump ⟨o2, Gen.op_jump, []⟩ (some (lb + 1)), LItem.label (lb + 2) false]) :=
     hp.mid' [LItem.label (lb + 1) false, LItem.ljump ⟨o1, hd.name, hd.params⟩ (some (lb + 2))] _ [] (by lst) (by len_omega)
-  have hitJ : itemAt cx.rs ⟨r, i0 + ops.length + 4⟩ = some (.ljump ⟨o2, Gen.op_jump, []⟩ (some (lb + 1))) :=
+  have hitJ : ItemC cx.cp cx.rs ⟨r, i0 + ops.length + 4⟩ (.ljump ⟨o2, Gen.op_jump, []⟩ (some (lb + 1))) :=
     hp.here' ([LItem.label (lb + 1) false, LItem.ljump ⟨o1, hd.name, hd.params⟩ (some (lb + 2))] ++
       ([LItem.label sL false] ++ ops ++ [LItem.label eB false])) _ _ (by lst) (by len_omega)
-  have hitE : itemAt cx.rs ⟨r, i0 + ops.length + 5⟩ = some (.label (lb + 2) false) :=
+  have hitE : ItemC cx.cp cx.rs ⟨r, i0 + ops.length + 5⟩ (.label (lb + 2) false) :=
     hp.here' ([LItem.label (lb + 1) false, LItem.ljump ⟨o1, hd.name, hd.params⟩ (some (lb + 2))] ++
       ([LItem.label sL false] ++ ops ++ [LItem.label eB false]) ++ [LItem.ljump ⟨o2, Gen.op_jump, []⟩ (some (lb + 1))]) [] _ (by lst) (by len_omega)
-  have htgt2 : target cx.rs (lb + 2) = ⟨r, i0 + ops.length + 5⟩ :=
+  have htgt2 : target cx.rs (cx.cp.σ (lb + 2)) = ⟨r, i0 + ops.length + 5⟩ :=
     hp.lbl' cx.hlab ([LItem.label (lb + 1) false, LItem.ljump ⟨o1, hd.name, hd.params⟩ (some (lb + 2))] ++
       ([LItem.label sL false] ++ ops ++ [LItem.label eB false]) ++ [LItem.ljump ⟨o2, Gen.op_jump, []⟩ (some (lb + 1))]) [] _ false (by lst) (by len_omega)
   have hlen : ([LItem.label (lb + 1) false, LItem.ljump ⟨o1, hd.name, hd.params⟩ (some (lb + 2))] ++
@@ -80,19 +81,19 @@ theorem whileNeg_core (cx : Cx) (fuel : Nat) (env : Src.Env) (he : EnvOK cx env)
     len_omega
   rw [hlen] at hend
   have hstepT := lab_test hitT (isTest_not_jump _ ht) ht
-  have hev : (⟨hd.name, convParams hd.params⟩ : Ev) = hdrEv hd := rfl
+  have hev : (⟨hd.name, convParams (hd.params.map cx.cp.sub)⟩ : Ev) = Src.substEv env.subst (hdrEv hd) := he.ev hd.name hd.params
   simp only [hev] at hstepT
-  have hbrkAt : ∀ m' j', ExitsOK cx m' j' s env ∧ R2 cx m' j' ⟨r, i0 + (ops.length + 6)⟩ k → R2 cx m' j' (target cx.rs (lb + 2)) k := by
+  have hbrkAt : ∀ m' j', ExitsOK cx m' j' s env ∧ R2 cx m' j' ⟨r, i0 + (ops.length + 6)⟩ k → R2 cx m' j' (target cx.rs (cx.cp.σ (lb + 2))) k := by
     intro m' j' hy
     rw [htgt2]
     refine R2.silL (lab_label hitE) ?_
     rw [LPos.next_eq r _ (i0 + (ops.length + 6)) (by omega)]; exact hy.2
   -- the body, given the loop head
   have hbodyAt : ∀ m' j', ExitsOK cx m' j' s env ∧ R2 cx m' j' ⟨r, i0 + (ops.length + 6)⟩ k → R2 cx m' j' ⟨r, i0⟩ (tbl b).length →
-      R2 cx m' j' ⟨r, i0 + 2⟩ (Src.trStmts fuel [] (loopEnv env (tbl b).length k) (toSrcStmts body) (tbl b).length
+      R2 cx m' j' ⟨r, i0 + 2⟩ (Src.trStmts fuel cx.sm (loopEnv env (tbl b).length k) (toSrcStmts body) (tbl b).length
         (b.push (.halt (evInvalid "loop head"))).1).2 ∧
       LabExport cx (loopEnv env (tbl b).length k) m' j' (b.push (.halt (evInvalid "loop head"))).1
-        (Src.trStmts fuel [] (loopEnv env (tbl b).length k) (toSrcStmts body) (tbl b).length
+        (Src.trStmts fuel cx.sm (loopEnv env (tbl b).length k) (toSrcStmts body) (tbl b).length
           (b.push (.halt (evInvalid "loop head"))).1).1 := by
     intro m' j' hy' hPh
     have hex' : ExitsOK cx m' j' sa (loopEnv env (tbl b).length k) :=
@@ -122,16 +123,16 @@ theorem whileNeg_core (cx : Cx) (fuel : Nat) (env : Src.Env) (he : EnvOK cx env)
 /-- `while (t) { body }` : jump to the test, block, test jumping back to the block -/
 theorem whilePos_core (cx : Cx) (fuel : Nat) (env : Src.Env) (he : EnvOK cx env) (lb : Nat) (hd : Hdr) (body : Stmts)
     (ht : isTest hd.name = true) {s sa sb s' : St} {ops : List LItem} (o1 o2 sL eB cL bL : Nat)
-    (hP : ∀ env', EnvOK cx env' → PieceOK cx ops sa sb (fun k b => Src.trStmts fuel [] env' (toSrcStmts body) k b) env')
+    (hP : ∀ env', EnvOK cx env' → PieceOK cx ops sa sb (fun k b => Src.trStmts fuel cx.sm env' (toSrcStmts body) k b) env')
     (hsaL : sa.loops = (lb + 1, lb + 2) :: s.loops) (hsaC : sa.cases = s.cases) (hl : s'.loops = s.loops) (hc : s'.cases = s.cases)
     (hnA : NamedLe s sa) (hnB : NamedLe sb s') :
     PieceOK cx ([LItem.label (lb + 1) false, LItem.ljump ⟨o1, Gen.op_jump, []⟩ (some cL), LItem.label bL false] ++
         ([LItem.label sL false] ++ ops ++ [LItem.label eB false]) ++
         [LItem.label cL false, LItem.ljump ⟨o2, hd.name, hd.params⟩ (some bL), LItem.label (lb + 2) false]) s s'
-      (fun k b => Src.tr fuel [] env (.while_ false (hdrEv hd) (toSrcStmts body)) k b) env := by
+      (fun k b => Src.tr fuel cx.sm env (.while_ false (hdrEv hd) (toSrcStmts body)) k b) env := by
   have hP0 := hP env he
-  have htr := fun k b => tr_while fuel env he false (hdrEv hd) (toSrcStmts body) k b
-  have hgrow : ∀ k b, Grow cx.Z b (Src.tr fuel [] env (.while_ false (hdrEv hd) (toSrcStmts body)) k b).1 := by
+  have htr := fun k b => tr_while fuel cx.sm env false (hdrEv hd) (toSrcStmts body) k b
+  have hgrow : ∀ k b, Grow cx.Z b (Src.tr fuel cx.sm env (.while_ false (hdrEv hd) (toSrcStmts body)) k b).1 := by
     intro k b
     rw [htr]
     exact ((Grow.push b _).trans ((hP _ (plainEnv_loopEnv he _ _)).grow _ _)).set_ge (Nat.le_refl _) _
@@ -162,31 +163,31 @@ theorem whilePos_core (cx : Cx) (fuel : Nat) (env : Src.Env) (he : EnvOK cx env)
   have hPe := hP (loopEnv env (tbl b).length k) (plainEnv_loopEnv he _ _)
   obtain ⟨hNh, hagB⟩ := agree_set hag (hPe.grow _ _)
   -- positions
-  have hit0 : itemAt cx.rs ⟨r, i0⟩ = some (.label (lb + 1) false) := hp.here' [] _ _ (by lst) (by len_omega)
-  have htgt1 : target cx.rs (lb + 1) = ⟨r, i0⟩ := hp.lbl' cx.hlab [] _ _ false (by lst) (by len_omega)
-  have hit1 : itemAt cx.rs ⟨r, i0 + 1⟩ = some (.ljump ⟨o1, Gen.op_jump, []⟩ (some cL)) :=
+  have hit0 : ItemC cx.cp cx.rs ⟨r, i0⟩ (.label (lb + 1) false) := hp.here' [] _ _ (by lst) (by len_omega)
+  have htgt1 : target cx.rs (cx.cp.σ (lb + 1)) = ⟨r, i0⟩ := hp.lbl' cx.hlab [] _ _ false (by lst) (by len_omega)
+  have hit1 : ItemC cx.cp cx.rs ⟨r, i0 + 1⟩ (.ljump ⟨o1, Gen.op_jump, []⟩ (some cL)) :=
     hp.here' [LItem.label (lb + 1) false] _ _ (by lst) (by len_omega)
-  have hit2 : itemAt cx.rs ⟨r, i0 + 2⟩ = some (.label bL false) :=
+  have hit2 : ItemC cx.cp cx.rs ⟨r, i0 + 2⟩ (.label bL false) :=
     hp.here' [LItem.label (lb + 1) false, LItem.ljump ⟨o1, Gen.op_jump, []⟩ (some cL)] _ _ (by lst) (by len_omega)
-  have htgtB : target cx.rs bL = ⟨r, i0 + 2⟩ :=
+  have htgtB : target cx.rs (cx.cp.σ bL) = ⟨r, i0 + 2⟩ :=
     hp.lbl' cx.hlab [LItem.label (lb + 1) false, LItem.ljump ⟨o1, Gen.op_jump, []⟩ (some cL)] _ _ false (by lst) (by len_omega)
-  have hpBlk : Placed cx.rs r (i0 + 3) ([LItem.label sL false] ++ ops ++ [LItem.label eB false] ++
+  have hpBlk : Placed cx.cp cx.rs r (i0 + 3) ([LItem.label sL false] ++ ops ++ [LItem.label eB false] ++
       [LItem.label cL false, LItem.ljump ⟨o2, hd.name, hd.params⟩ (some bL), LItem.label (lb + 2) false]) :=
     hp.mid' [LItem.label (lb + 1) false, LItem.ljump ⟨o1, Gen.op_jump, []⟩ (some cL), LItem.label bL false] _ [] (by lst) (by len_omega)
-  have hitC : itemAt cx.rs ⟨r, i0 + ops.length + 5⟩ = some (.label cL false) :=
+  have hitC : ItemC cx.cp cx.rs ⟨r, i0 + ops.length + 5⟩ (.label cL false) :=
     hp.here' ([LItem.label (lb + 1) false, LItem.ljump ⟨o1, Gen.op_jump, []⟩ (some cL), LItem.label bL false] ++
       ([LItem.label sL false] ++ ops ++ [LItem.label eB false])) _ _ (by lst) (by len_omega)
-  have htgtC : target cx.rs cL = ⟨r, i0 + ops.length + 5⟩ :=
+  have htgtC : target cx.rs (cx.cp.σ cL) = ⟨r, i0 + ops.length + 5⟩ :=
     hp.lbl' cx.hlab ([LItem.label (lb + 1) false, LItem.ljump ⟨o1, Gen.op_jump, []⟩ (some cL), LItem.label bL false] ++
       ([LItem.label sL false] ++ ops ++ [LItem.label eB false])) _ _ false (by lst) (by len_omega)
-  have hitT : itemAt cx.rs ⟨r, i0 + ops.length + 6⟩ = some (.ljump ⟨o2, hd.name, hd.params⟩ (some bL)) :=
+  have hitT : ItemC cx.cp cx.rs ⟨r, i0 + ops.length + 6⟩ (.ljump ⟨o2, hd.name, hd.params⟩ (some bL)) :=
     hp.here' ([LItem.label (lb + 1) false, LItem.ljump ⟨o1, Gen.op_jump, []⟩ (some cL), LItem.label bL false] ++
       ([LItem.label sL false] ++ ops ++ [LItem.label eB false]) ++ [LItem.label cL false]) _ _ (by lst) (by len_omega)
-  have hitE : itemAt cx.rs ⟨r, i0 + ops.length + 7⟩ = some (.label (lb + 2) false) :=
+  have hitE : ItemC cx.cp cx.rs ⟨r, i0 + ops.length + 7⟩ (.label (lb + 2) false) :=
     hp.here' ([LItem.label (lb + 1) false, LItem.ljump ⟨o1, Gen.op_jump, []⟩ (some cL), LItem.label bL false] ++
       ([LItem.label sL false] ++ ops ++ [LItem.label eB false]) ++
       [LItem.label cL false, LItem.ljump ⟨o2, hd.name, hd.params⟩ (some bL)]) [] _ (by lst) (by len_omega)
-  have htgt2 : target cx.rs (lb + 2) = ⟨r, i0 + ops.length + 7⟩ :=
+  have htgt2 : target cx.rs (cx.cp.σ (lb + 2)) = ⟨r, i0 + ops.length + 7⟩ :=
     hp.lbl' cx.hlab ([LItem.label (lb + 1) false, LItem.ljump ⟨o1, Gen.op_jump, []⟩ (some cL), LItem.label bL false] ++
       ([LItem.label sL false] ++ ops ++ [LItem.label eB false]) ++
       [LItem.label cL false, LItem.ljump ⟨o2, hd.name, hd.params⟩ (some bL)]) [] _ false (by lst) (by len_omega)
@@ -196,7 +197,7 @@ theorem whilePos_core (cx : Cx) (fuel : Nat) (env : Src.Env) (he : EnvOK cx env)
     len_omega
   rw [hlen] at hend
   have hstepT := lab_test hitT (isTest_not_jump _ ht) ht
-  have hev : (⟨hd.name, convParams hd.params⟩ : Ev) = hdrEv hd := rfl
+  have hev : (⟨hd.name, convParams (hd.params.map cx.cp.sub)⟩ : Ev) = Src.substEv env.subst (hdrEv hd) := he.ev hd.name hd.params
   simp only [hev] at hstepT
   have hbrkAt : ∀ m' j', ExitsOK cx m' j' s env ∧ R2 cx m' j' ⟨r, i0 + (ops.length + 8)⟩ k →
       R2 cx m' j' ⟨r, i0 + ops.length + 7⟩ k := by
@@ -206,13 +207,13 @@ theorem whilePos_core (cx : Cx) (fuel : Nat) (env : Src.Env) (he : EnvOK cx env)
   -- the body, given the loop point (the label of the test)
   have hbodyAt : ∀ m' j', ExitsOK cx m' j' s env ∧ R2 cx m' j' ⟨r, i0 + (ops.length + 8)⟩ k →
       R2 cx m' j' ⟨r, i0 + ops.length + 5⟩ (tbl b).length →
-      R2 cx m' j' ⟨r, i0 + 3⟩ (Src.trStmts fuel [] (loopEnv env (tbl b).length k) (toSrcStmts body) (tbl b).length
+      R2 cx m' j' ⟨r, i0 + 3⟩ (Src.trStmts fuel cx.sm (loopEnv env (tbl b).length k) (toSrcStmts body) (tbl b).length
         (b.push (.halt (evInvalid "loop head"))).1).2 ∧
       LabExport cx (loopEnv env (tbl b).length k) m' j' (b.push (.halt (evInvalid "loop head"))).1
-        (Src.trStmts fuel [] (loopEnv env (tbl b).length k) (toSrcStmts body) (tbl b).length
+        (Src.trStmts fuel cx.sm (loopEnv env (tbl b).length k) (toSrcStmts body) (tbl b).length
           (b.push (.halt (evInvalid "loop head"))).1).1 := by
     intro m' j' hy' hQh
-    have hcontR : R2 cx m' j' (target cx.rs (lb + 1)) (tbl b).length := by
+    have hcontR : R2 cx m' j' (target cx.rs (cx.cp.σ (lb + 1))) (tbl b).length := by
       rw [htgt1]
       refine R2.silL (lab_label hit0) ?_
       rw [LPos.next_eq r _ (i0 + 1) rfl]
@@ -250,8 +251,8 @@ theorem whilePos_core (cx : Cx) (fuel : Nat) (env : Src.Env) (he : EnvOK cx env)
 /-- `WhileBlockCompileHandler.collect()` -/
 theorem while_pm (cx : Cx) (fuel : Nat) (env : Src.Env) (he : EnvOK cx env) (lb : Nat) (neg : Bool) (hd : Hdr) (body : Stmts)
     (bodyM : M (List LItem)) (ht : isTest hd.name = true)
-    (hBody : ∀ env', EnvOK cx env' → PM cx bodyM (fun k b => Src.trStmts fuel [] env' (toSrcStmts body) k b) env') :
-    PM cx (whileOf lb neg hd bodyM) (fun k b => Src.tr fuel [] env (.while_ neg (hdrEv hd) (toSrcStmts body)) k b) env := by
+    (hBody : ∀ env', EnvOK cx env' → PM cx bodyM (fun k b => Src.trStmts fuel cx.sm env' (toSrcStmts body) k b) env') :
+    PM cx (whileOf lb neg hd bodyM) (fun k b => Src.tr fuel cx.sm env (.while_ neg (hdrEv hd) (toSrcStmts body)) k b) env := by
   intro s items s' h
   cases neg with
   | true =>
